@@ -476,9 +476,54 @@ def build_units(ctx):
     return units, full
 
 
+# ---------------------------------------------------------------------------------------------
+# two-step histories on REUSED wrapper objects: the same Jacobian / Gradient instance called again at
+# the same or another x with the same or other extra arguments must behave like a first call
+
+def _hist_f(x, scale, shift=0.0):
+    x = np.asarray(x)
+    return scale * np.array([x[0] * x[1] + np.exp(0.5 * x[0]), np.sin(x[1]) - x[0]]) + shift
+
+
+def _hist_g(x, scale, shift=0.0):
+    x = np.asarray(x)
+    return scale * (x[0] * x[1] + np.exp(0.5 * x[0])) + shift
+
+
+def history_cases():
+    out = []
+    for api in ('Jacobian', 'Gradient'):
+        for method in ('forward', 'central', 'complex'):
+            for bk in ('none', 'lower'):
+                for xv in ((0.7, -1.3), (0.25, 1.9)):
+                    for extras in ((1.0, 0.0), (2.5, -1.0)):
+                        out.append((api, method, bk, xv, extras))
+    return out
+
+
+def history_run(case, shared):
+    import numdifftools.nd_scipy as nds
+    api, method, bk, xv, extras = case
+    key = (api, method, bk)
+    if key not in shared:
+        bounds = (-np.inf, np.inf) if bk == 'none' else (np.array([0.25, -1.3]), np.array([5.0, 5.0]))
+        shared[key] = getattr(nds, api)(_hist_f if api == 'Jacobian' else _hist_g, method=method, bounds=bounds)
+    try:
+        return fw.obs(shared[key](np.array(xv), extras[0], shift=extras[1]))
+    except Exception as e:
+        return fw.obs(e)
+
+
+def work_history(chunk):
+    acc = fw.Acc()
+    fw.pair_histories(acc, 'C19', 'wrapper-object-reuse', history_cases(), history_run)
+    return acc
+
+
 def run(ctx):
     units, full = build_units(ctx)
     acc = ctx.pmap(work, units, chunk=1, full=full)
+    acc.merge(ctx.pmap(work_history, [0], chunk=1))
 
     for case in (dict(api='Jacobian', n=3, m=2, map=['affine'], pt=0, method='complex', step=None, bounds='none',
                       j0=0, extras=1),
@@ -503,6 +548,7 @@ def run(ctx):
     req += ['J:m=%d' % m for m in range(1, 6)] + ['J:affine', 'J:ridge', 'G:affine', 'G:ridge',
                                                    'J:extras=0', 'J:extras=1', 'G:extras=0', 'G:extras=1',
                                                    'G:x=float', 'G:x=0-d', 'G:x=1-d', 'G:x=2-d']
+    req += ['history/wrapper-object-reuse']
     if full:
         req += ['J:pair=%s*%s' % p for p in PAIRS] + ['J:extras=2', 'J:extras=3']
     rule = (
@@ -551,6 +597,15 @@ def run(ctx):
 
 
 def replay(case):
+    if case.get('kind') == 'history':
+        cs = history_cases()
+        a, b = cs[case['i']], cs[case['j']]
+        fw.fresh_library_state()
+        alone = history_run(b, {})
+        sh = {}
+        history_run(a, sh)
+        got = history_run(b, sh)
+        return got == alone, 'history %r then %r: %s' % (a, b, 'same' if got == alone else 'differs from the call alone')
     case = dict(case)
     case['map'] = [case['map'][0]] + [int(v) for v in case['map'][1:]]
     probs, info = run_one(case)
